@@ -231,6 +231,14 @@ def decorate(rng, prog):
         if part["id"] != "c" and rng.random() < 0.3:
             part["custom_flags_trailing_comma"] = True
     ifaces = prog["parts"][1:]
+    for part in ifaces:
+        # the cw1 shape: an exec handler taking messages typed with the interface's own `ExecC`
+        hs = [h for h in part["handlers"] if h["kind"] == "exec" and not any(a["name"].startswith("p1") for a in h["args"])]
+        if part["custom_mode"] == "assoc" and hs and rng.random() < 0.3:
+            h = rng.choice(hs)
+            if "msgs" not in {a["name"] for a in h["args"]}:
+                h["args"].append({"name": "msgs", "ti": intern_type(prog, T.cosmos_msgs(prog["custom"]["msg"]))})
+                part["special_params"] = {"ExecC": "MyMsg" if prog["custom"]["msg"] else "Empty"}
     if len(ifaces) >= 2 and rng.random() < 0.35:
         # two interfaces whose module paths end in the same identifier (`a_ns::common`, `b_ns::common`), told apart with `as`
         for part in ifaces[:2]:
@@ -244,6 +252,15 @@ def decorate(rng, prog):
                                      f"fn helper_{i}(&self) -> u32 {{ {i} }}", f"pub fn assoc_{i}() -> u8 {{ {i} }}"]))
         # (slot, item): slot counts handler methods of the contract impl in declaration order
         prog["impl_between"] = [(rng.randrange(0, 12), it) for it in items]
+
+
+def set_custom_mode(prog, part, mode):
+    """Changes how an interface declares its custom types; arguments typed with `Self::ExecC` only exist in mode `assoc`."""
+    part["custom_mode"] = mode
+    if mode != "assoc" and part.get("special_params"):
+        for h in part["handlers"]:
+            h["args"] = [a for a in h["args"] if getattr(prog["types"][a["ti"]], "param", None) not in part["special_params"]]
+        part.pop("special_params")
 
 
 def handlers(prog, kind=None, part=None):
@@ -491,7 +508,7 @@ def used_params(prog, part, kind):
     if part["id"] == "c":
         domain = [g["name"] for g in prog.get("generics") or []]
     else:
-        domain = [n for n, _ in part.get("assoc", [])]
+        domain = [n for n, _ in part.get("assoc", [])] + list(part.get("special_params", {}))
     out = []
     for h in part["handlers"]:
         if h["kind"] != kind:
